@@ -369,6 +369,36 @@ func windowCfg(w int64, num, den int64, stakeK0 int64) chain.Config {
 	return c
 }
 
+// statePreludes: block sequences that take the base configuration (k0, k1 staked; window 2) to a
+// non-initial state from which the alphabets are explored again (a state reached by 2-3 deviations
+// plus K further deviations = histories the plain bound does not reach).
+func statePreludes() map[string][]chain.Block {
+	ev0 := chain.Block{Evidence: []chain.Evidence{{Val: 0, HeightAgo: 1, Age: time.Second}}}
+	return map[string][]chain.Block{
+		"k0-jailed":           {{}, {Missed: []int{0}}, {Missed: []int{0}}},
+		"k0-unstaking":        {{Events: []chain.Event{txE(chain.TxSpec{Msg: "unstake", From: 0})}}},
+		"k0-tombstoned":       {{}, ev0},
+		"k0-unstaking-jailed": {{Events: []chain.Event{txE(chain.TxSpec{Msg: "unstake", From: 0})}}, {Missed: []int{0}}, {Missed: []int{0}}},
+		"k2-joined-k0-jailed": {{Events: []chain.Event{txE(chain.TxSpec{Msg: "stake", From: 2, Amount: 2 * min})}}, {Missed: []int{0}}, {Missed: []int{0}}},
+	}
+}
+
+// fromStates appends one scenario per named prelude.
+func fromStates(scs []Scenario, cfg chain.Config, alphabet []Choice, k, d int, names ...string) []Scenario {
+	ps := statePreludes()
+	for _, n := range names {
+		scs = append(scs, Scenario{Name: "from-" + n, Cfg: cfg, Prelude: ps[n], Alphabet: alphabet, K: k, D: d, Tail: 1})
+	}
+	return scs
+}
+
+// bigStake: the base configuration with k0 staking 100·min, so that slashes leave it staked.
+func bigStake() chain.Config {
+	c := baseCfg()
+	c.Vals = []chain.GenVal{{Key: 0, Stake: 100 * min}, {Key: 1, Stake: 3 * min}}
+	return c
+}
+
 func posScenarios(id, tier string) []Scenario {
 	th := tier == "thorough"
 	kd := func(qk, qd, tk, td int) (int, int) {
@@ -381,18 +411,18 @@ func posScenarios(id, tier string) []Scenario {
 	case "C02", "C04":
 		k, d := kd(2, 4, 3, 4)
 		k2, d2 := kd(2, 3, 3, 4)
-		return []Scenario{
+		return fromStates([]Scenario{
 			{Name: "2val-rich", Cfg: baseCfg(), Alphabet: richAlphabet(), K: k, D: d, Tail: 1},
 			{Name: "3val-equal-max2", Cfg: cfg3equal(), Alphabet: append(stakingAlphabet(), setAlphabet()...), K: k2, D: d2, Tail: 1},
 			// single miss jails: slashes and burns of an already jailed validator within two deviations
 			{Name: "3val-jail-fast", Cfg: cfgJailFast(), Alphabet: append(stakingAlphabet(), jailFastAlphabet()...), K: k2, D: d2, Tail: 1},
 			// starting from a non-initial state: k0 has been force-unstaked (record kept, no stake)
 			{Name: "2val-k0-force-unstaked", Cfg: baseCfg(), Prelude: []chain.Block{{Events: []chain.Event{{Kind: "burn", Who: 0, Sev: "1"}}}, {}}, Alphabet: stakingAlphabet(), K: k2, D: d2, Tail: 1},
-		}
+		}, bigStake(), stakingAlphabet(), k2, d2, "k0-jailed", "k0-unstaking", "k0-unstaking-jailed")
 	case "C05":
 		k, d := kd(2, 4, 3, 4)
 		k2, d2 := kd(2, 3, 3, 4)
-		return []Scenario{
+		return fromStates([]Scenario{
 			{Name: "2val", Cfg: baseCfg(), Alphabet: richAlphabet(), K: k2, D: d2, Tail: 1},
 			{Name: "3val-equal-max2", Cfg: cfg3equal(), Alphabet: setAlphabet(), K: k, D: d, Tail: 1},
 			{Name: "4val-ordered-max3", Cfg: cfg4ordered(), Alphabet: setAlphabet(), K: k, D: d, Tail: 1},
@@ -400,15 +430,15 @@ func posScenarios(id, tier string) []Scenario {
 			{Name: "4val-big-powers-max3", Cfg: cfg4big(), Alphabet: setAlphabetU(64 * min), K: k2, D: d2, Tail: 1},
 			{Name: "3val-minstake3-max2", Cfg: cfgMinStake3(), Alphabet: setAlphabet(), K: k2, D: d2, Tail: 1},
 			{Name: "3val-jail-fast", Cfg: cfgJailFast(), Alphabet: jailFastAlphabet(), K: k2, D: d2, Tail: 1},
-		}
+		}, bigStake(), richAlphabet(), k2, d2, "k0-jailed", "k0-unstaking", "k2-joined-k0-jailed")
 	case "C06":
 		k, d := kd(3, 4, 4, 5)
 		k2, d2 := kd(2, 4, 3, 4)
-		return []Scenario{
+		return fromStates([]Scenario{
 			{Name: "lifecycle", Cfg: baseCfg(), Alphabet: lifecycleAlphabet(), K: k, D: d, Tail: 1},
 			{Name: "2val-rich", Cfg: baseCfg(), Alphabet: richAlphabet(), K: k2, D: d2, Tail: 1},
 			{Name: "3val-equal-max2", Cfg: cfg3equal(), Alphabet: setAlphabet(), K: k2, D: d2, Tail: 1},
-		}
+		}, bigStake(), lifecycleAlphabet(), k2, d2, "k0-jailed", "k0-unstaking", "k0-tombstoned", "k0-unstaking-jailed", "k2-joined-k0-jailed")
 	case "C07":
 		k, d := kd(2, 3, 3, 3)
 		var scs []Scenario
@@ -426,7 +456,11 @@ func posScenarios(id, tier string) []Scenario {
 		pj.SlashDoubleStr, pj.SlashDowntimeStr = "0.333333333333333333", "0.010000000000000001"
 		jf.Pos = &pj
 		scs = append(scs, Scenario{Name: "slash-jailed-fast", Cfg: jf, Alphabet: slashAlphabet(), K: k, D: d, Tail: 1})
-		return scs
+		bs := bigStake()
+		pb := *bs.Pos
+		pb.SlashDoubleStr, pb.SlashDowntimeStr = "0.333333333333333333", "0.010000000000000001"
+		bs.Pos = &pb
+		return fromStates(scs, bs, slashAlphabet(), k, d, "k0-jailed", "k0-unstaking", "k0-unstaking-jailed")
 	case "C08":
 		var scs []Scenario
 		miss := []Choice{{Label: "M", Block: chain.Block{Missed: []int{0}}}}
@@ -463,7 +497,8 @@ func posScenarios(id, tier string) []Scenario {
 		k, d := kd(3, 5, 5, 7)
 		scs = append(scs, Scenario{Name: "interleaved-W=2", Cfg: windowCfg(2, 1, 2, 2*min), Alphabet: inter, K: k, D: d, Tail: 1})
 		scs = append(scs, Scenario{Name: "interleaved-W=3", Cfg: windowCfg(3, 1, 2, 2*min), Alphabet: inter, K: k, D: d, Tail: 1})
-		return scs
+		kf, df := kd(2, 4, 4, 5)
+		return fromStates(scs, bigStake(), inter, kf, df, "k0-jailed", "k0-unstaking", "k2-joined-k0-jailed")
 	case "C09":
 		k, d := kd(3, 4, 4, 5)
 		var scs []Scenario
@@ -472,15 +507,16 @@ func posScenarios(id, tier string) []Scenario {
 		}
 		k2, d2 := kd(2, 4, 3, 5)
 		scs = append(scs, Scenario{Name: "3val-jail-fast", Cfg: cfgJailFast(), Alphabet: jailFastAlphabet(), K: k2, D: d2, Tail: 1})
+		scs = fromStates(scs, bigStake(), jailAlphabet(), k2, d2, "k0-jailed", "k0-tombstoned", "k0-unstaking-jailed", "k2-joined-k0-jailed")
 		return scs
 	case "C10":
 		k, d := kd(3, 4, 4, 4)
 		ra := rewardAlphabet()
-		return []Scenario{
+		return fromStates([]Scenario{
 			{Name: "rewards", Cfg: baseCfg(), Alphabet: ra[:18], K: k, D: d, Tail: 1},
 			// + unstaked-but-known proposers, zero awards, transfers to module addresses
 			{Name: "rewards-extended", Cfg: baseCfg(), Alphabet: ra, K: k - 1, D: d, Tail: 1},
-		}
+		}, bigStake(), ra, k-1, d, "k0-jailed", "k0-unstaking")
 	}
 	return nil
 }
